@@ -751,7 +751,12 @@ def gen_level(rng, T, app, opts):
         #  ill formed: the selector is not saved while the switch is off - wf_app, notes/C12.md stage 4)
         togg = [p for p in leaves if p.kind == "t" and p.fid != lv.enabler and p.depends is None]
         if togg:
-            lv.self_enabled_by = rng.choice(togg).name
+            tg = rng.choice(togg)
+            lv.self_enabled_by = tg.name
+            # every other port of the table waits for this switch (scan_deps reads the "self:" port of the
+            # directory), so the switch must not wait for one of them: cyclic metadata (D31)
+            if not opts.get("cyclic"):
+                tg.rdepends, tg.eb_leaf = [], None
     # children
     if T < LAST:
         kinds = []
@@ -766,14 +771,20 @@ def gen_level(rng, T, app, opts):
             lo = 0
             if kf == "ptr" and lv.enabler:
                 c.enabled_by = [p for p in leaves if p.fid == lv.enabler][0].name
-            elif kf == "sub" and rng.random() < opts.get("p_inner", 0.0):
+            elif kf in ("sub", "arr") and (kf == "sub" or opts.get("inner_arr", True)) and rng.random() < opts.get("p_inner", 0.0):
                 # the switch lives inside the sub-tree: "enabled by" = "<child>/<toggle>"
                 nxt = app.levels[T + 1]
                 togg = [p for p in nxt.ports if isinstance(p, Leaf) and p.kind == "t" and p.fid != nxt.enabler
                         and p.depends is None]
                 if togg:
                     tg = rng.choice(togg)
-                    c.enabled_by = c.name + "/" + tg.name
+                    if nxt.self_enabled_by is not None and not opts.get("cyclic"):
+                        # the sub-tree's table has its own switch (rSelf): both forms name that one port
+                        # (two different switches would wait for each other)
+                        tg = [p for p in togg if p.name == nxt.self_enabled_by][0]
+                    # (an enumerated sub-tree names the switch through its own name: "arr#3/tg" - every
+                    #  element is switched by the port of that name inside itself)
+                    c.enabled_by = c.portname() + tg.name
                     # every port of the sub-tree waits for this switch (its parent's "enabled by"), so the
                     # switch must not itself wait for a port of the sub-tree: the metadata would be cyclic
                     # (D31, notes/C12.md stage 4) unless opts["cyclic"] asks for exactly that
@@ -919,17 +930,30 @@ def mop_text(i, k, v):
         s = tag + hx(bytes(x))
     return "%d.%d.%s" % (i, k, s)
 
-def gen_ops(rng, ref, nops, bias_guards=True):
-    """random parameter messages; returns (ops text, model ops text) and leaves ref in the reached state"""
+def gen_ops(rng, ref, nops, bias_guards=True, focus=False):
+    """random parameter messages; returns (ops text, model ops text) and leaves ref in the reached state.
+    focus: the first messages switch one guard (switch of a pointer sub-tree / 'enabled by' toggle) on and
+    write two of the ports it governs, so that the saved file holds a dependency among its lines"""
     ops, mops = [], []
     flat = ref.flat
     if not flat:
         return "-", "-"
     guards = sorted({g for fp in flat for g in fp.hard + fp.soft})
     sels = sorted({fp.sel for fp in flat if fp.sel is not None})
-    for _ in range(nops):
+    plan = []
+    if focus and guards:
+        # switches that govern ports of their own directory (rSelf, "name/toggle" forms) are rarer: half of
+        # the focused files are about one of them
+        dirn = lambda i: flat[i].path.rsplit("/", 1)[0]
+        own = [g for g in guards if any(g in fp.hard + fp.soft and dirn(j) == dirn(g) for j, fp in enumerate(flat))]
+        g = rng.choice(own) if (own and rng.random() < 0.5) else rng.choice(guards)
+        below = [i for i, fp in enumerate(flat) if g in fp.hard + fp.soft]
+        plan = [g] + rng.sample(below, min(len(below), 2))
+    for n_op in range(nops):
         r = rng.random()
-        if bias_guards and guards and r < 0.2:
+        if n_op < len(plan):
+            i = plan[n_op]
+        elif bias_guards and guards and r < 0.2:
             i = rng.choice(guards)
         elif bias_guards and sels and r < 0.35:
             i = rng.choice(sels)
@@ -938,6 +962,8 @@ def gen_ops(rng, ref, nops, bias_guards=True):
         p = flat[i].leaf
         k = rng.randrange(p.n) if p.is_array() else 0
         v = gen_incoming(rng, p)
+        if n_op == 0 and plan and v[0] in ("T", "F"):
+            v = ("T", None)
         if flat[i].sel is None and i in sels and v[0] in ("i", "c") and rng.random() < 0.7:
             # selectors mostly inside their table
             keys = sorted({kk for fq in flat if fq.sel == i for kk in fq.leaf.presets})
